@@ -450,10 +450,12 @@ class Builder:
                 bell_state = self._get_raw_bell_state(
                     ent_results_array, loop_reg, bell_state_reg
                 )
-                set_qubit_reg_cmd = ICmd(
-                    instruction=GenericInstr.SET, operands=[qubit_reg, 0]
+                # correct the qubit of *this* pair (its virtual ID is not always 0)
+                self.subrt_add_pending_commands(
+                    qubit_ids.get_future_index(loop_register).get_load_commands(
+                        qubit_reg
+                    )
                 )
-                self.subrt_add_pending_command(set_qubit_reg_cmd)  # type: ignore
                 self._build_cmds_epr_keep_corrections_single_pair(bell_state, qubit_reg)
 
             q_id = qubit_ids.get_future_index(loop_register)
